@@ -63,3 +63,7 @@ HARNESSES = HARNESSES + [
     _m12.multi("multi_take_restore", "h_ckpt_take_restore", "model_allocator_checkpoint_take under INV_MM never exceeds the full_ckpt_size buffer and logs (ref_i, ckpt); after arbitrary clobbering of one arena and optional growth to a further arena, model_allocator_checkpoint_restore restores tree and live bytes exactly, re-initialises arenas created after the checkpoint and re-establishes INV_MM (the 'forgotten size of a new arena corrupts the NEXT checkpoint' case)",
                 (4, 1), ("quick", "thorough"), to=2400, pid="C05"),
 ]
+HARNESSES = HARNESSES + [
+    _m12.multi("restore_scan", "h_restore_scan", "model_allocator_checkpoint_restore log scan (<= 3 logs, arbitrary non-decreasing references, any target): the newest checkpoint not after the target is used, the table is cut right after it, later checkpoints are released once each, full_ckpt_size taken from it",
+                (4, 1), ("quick", "thorough"), to=900, pid="C05"),
+]
